@@ -37,6 +37,7 @@ class KUnit:
         self.path = path
         self.name = os.path.splitext(os.path.basename(path))[0]
         self.flags = []
+        self.jobs = None
         self.contracts = []   # (rel, impl, fn, [lines])
         self.modules = []     # (rel, [lines])
         self.harnesses = []   # dict
@@ -53,6 +54,8 @@ class KUnit:
                     self.name = d[1]
                 elif d[0] == 'flags':
                     self.flags += d[1:]
+                elif d[0] == 'jobs':
+                    self.jobs = int(d[1])
                 elif d[0] in ('contract', 'module'):
                     j = i + 1
                     body = []
@@ -198,7 +201,7 @@ def run_kani(unit_name, repo='/repo', tier='quick', jobs=6, timeout=1500, only=N
         return out
     out['info'] = info
     try:
-        cmd = ['cargo', 'kani', '-j', str(jobs), '--output-format', 'terse'] + unit.flags
+        cmd = ['cargo', 'kani', '-j', str(unit.jobs or jobs), '--output-format', 'terse'] + unit.flags
         for h in hs:
             cmd += ['--harness', h['name']]
         out['cmd'] = ' '.join(cmd)
